@@ -4,15 +4,19 @@ import logging
 from vlib import basic
 
 LEVEL = 'proof'
-RULE = ('per SCREEN mode (cga 1, 2; ega 7, 9) statement histories on a real Session: 1-4 statements, mostly DRAW strings '
+RULE = ('in every adapter x graphics SCREEN mode (cga, ega, ega 64k, ega mono, vga, hercules, tandy, pcjr, olivetti: 34 '
+        'combinations) a colour sweep: C with every attribute of the mode, the first values beyond it, 255, 256, 300, '
+        '+-99999, -1 (literal, signed, through variables), each drawn as segments of its own, then moves in the fresh '
+        'mode\'s own attribute and in the one PSET / LINE leave (thorough: also random histories in every combination); '
+        'per SCREEN mode (cga 1, 2; ega 7, 9) statement histories on a real Session: 1-4 statements, mostly DRAW strings '
         'rendered from structured token lists (U D L R E F G H with no / literal / signed / blank-split / =var; / =arr(i); '
         'counts, S scales, B and N prefixes, absolute and relative M with signs and variables, C colours in and out of the '
-        'mode\'s range, X substrings through string variables up to depth 3 and self-referential ones, supported angle '
+        'mode\'s range (mode-aware: highest attribute, one beyond), X substrings through string variables up to depth 3 and self-referential ones, supported angle '
         'settings, malformed commands of known error) interleaved with PSET / LINE -(x,y); boundary-dense counts and '
         'scales (truncation of scale*n/4 on both signs), targets on, at the edge of and far off the screen; plus '
         'random byte strings over the command alphabet; one case = one executed statement; non-trivial = every case')
 EXPLANATION = ('theorems (PcbV.Props.C33) over all strings / variable stores: draw_final_position, segments_of_moves, '
-               'b_no_draw, n_returns, segments_are_lines, point_reports_position, malformed_ifc, nesting_bounded, '
+               'b_no_draw, n_returns, segments_are_lines, colour_spec, point_reports_position, malformed_ifc, nesting_bounded, '
                'self_reference_* ; correspondence: status, POINT(0), POINT(1) after every statement and the whole pixel '
                'buffer (digest) compared with the compiled model (scanner Model/Mml + Model/Gml + line model Model/Draw); '
                'oracle (from the statement, on the token lists, independent of the model and of any parsing): position by '
@@ -21,7 +25,7 @@ EXPLANATION = ('theorems (PcbV.Props.C33) over all strings / variable stores: dr
                'exception may escape')
 TRUSTED_BASE = ['models PcbV.Model.Gml (DRAW loop), PcbV.Model.Mml (scanner, C42) and PcbV.Model.Draw/Viewport (C30) are hand '
                 'transcriptions of graphics.py / mlparser.py',
-                'table MODES below (size, number of attributes, default attribute of each SCREEN mode) is written from the '
+                'tables SIZES / DEFAULT_ATTR below (size, number of attributes, default attribute of each SCREEN mode) is written from the '
                 'GW-BASIC documentation, not read from the implementation',
                 'pixels are read with Session.get_pixels()']
 ASSUMPTIONS = ['no VIEW, no WINDOW, active page = visible page = 0',
@@ -32,13 +36,39 @@ ASSUMPTIONS = ['no VIEW, no WINDOW, active page = visible page = 0',
 
 logging.getLogger().setLevel(logging.ERROR)
 
+# every adapter x graphics SCREEN mode (written from the GW-BASIC / PC-BASIC documentation, not read from the
+# implementation): adapter label -> Session kwargs, and (label, SCREEN) -> (width, height, bits per pixel).
+# A mode has 2^bpp attributes 0..2^bpp-1.  The attribute a fresh mode draws in is the highest one, except on the
+# EGA monochrome monitor (SCREEN 10), where it is 1 of 0..3.
+ADAPTER_KW = {
+    'cga': {'video': 'cga'}, 'ega': {'video': 'ega'}, 'ega_64k': {'video': 'ega', 'video_memory': 65536},
+    'vga': {'video': 'vga'}, 'ega_mono': {'video': 'ega', 'monitor': 'mono'}, 'hercules': {'video': 'hercules'},
+    'tandy': {'video': 'tandy'}, 'pcjr': {'video': 'pcjr'}, 'olivetti': {'video': 'olivetti'},
+}
+SIZES = {}
+for _a in ('cga', 'ega', 'ega_64k', 'vga', 'tandy', 'pcjr', 'olivetti'):
+    SIZES[_a, 1] = (320, 200, 2)
+    SIZES[_a, 2] = (640, 200, 1)
+for _a in ('ega', 'ega_64k', 'vga'):
+    SIZES[_a, 7] = (320, 200, 4)
+    SIZES[_a, 8] = (640, 200, 4)
+    SIZES[_a, 9] = (640, 350, 4)
+SIZES['ega_64k', 9] = (640, 350, 2)
+SIZES['ega_mono', 10] = (640, 350, 2)
+SIZES['hercules', 3] = (720, 348, 1)
+SIZES['olivetti', 3] = (640, 400, 1)
+for _a in ('tandy', 'pcjr'):
+    SIZES[_a, 3] = (160, 200, 4)
+    SIZES[_a, 4] = (320, 200, 2)
+    SIZES[_a, 5] = (320, 200, 4)
+    SIZES[_a, 6] = (640, 200, 2)
+DEFAULT_ATTR = {('ega_mono', 10): 1}
+
 # (label, Session kwargs, SCREEN, width, height, attributes, default attribute)
-MODES = [
-    ('cga', {'video': 'cga'}, 1, 320, 200, 4, 3),
-    ('cga', {'video': 'cga'}, 2, 640, 200, 2, 1),
-    ('ega', {'video': 'ega'}, 7, 320, 200, 16, 15),
-    ('ega', {'video': 'ega'}, 9, 640, 350, 16, 15),
-]
+ALL_MODES = [(_a, ADAPTER_KW[_a], _n, _w, _h, 1 << _b, DEFAULT_ATTR.get((_a, _n), (1 << _b) - 1))
+             for (_a, _n), (_w, _h, _b) in sorted(SIZES.items())]
+# the modes of the long random part
+MAIN = [i for i, m in enumerate(ALL_MODES) if (m[0], m[2]) in (('cga', 1), ('cga', 2), ('ega', 7), ('ega', 9))]
 MAXNEST = 32          # the statement has no number; the repaired code allows 32 nested substrings
 FUEL = 20000
 P31 = 2147483647
@@ -136,7 +166,9 @@ class Gen(object):
         r = self.rng
         if r.random() < 0.08:
             return ['Cs']
-        n = r.choice([0, 1, 2, 3, 4, 7, 15, 16, 17, 255, 256, 300, 99999, r.randint(0, 20)])
+        nattr = self.mode[5]
+        n = r.choice([0, 1, 2, 3, 4, 7, 15, 16, 17, 255, 256, 300, 99999, r.randint(0, 20),
+                      nattr - 1, nattr - 1, nattr, r.randint(0, nattr)])
         v, form = self.num_form(n)
         return ['C', v, form]
 
@@ -613,7 +645,7 @@ def kinds_of(hist, i):
 
 def run_history(ctx, mi, impl, ref, hist, judge=True):
     """execute on the implementation; returns (impl string for the model comparison, failures)"""
-    mode = MODES[mi]
+    mode = ALL_MODES[mi]
     impl.reset()
     impl.set_vars(hist['nums'], hist['arr'], [(n, t.encode('latin-1')) for n, t in hist['strs']])
     res = []
@@ -780,12 +812,107 @@ def fixed_histories(mode):
     return out
 
 
+def colour_histories(rng, mode):
+    """Every attribute of the mode, the first ones beyond it and far values, each selected with C (literal, signed,
+    through a variable) and drawn as two segments of its own; then the attribute of a fresh mode and the one left by
+    PSET / LINE, drawn without any C."""
+    _, _, _, w, h, nattr, _ = mode
+    values = list(range(nattr)) + [nattr, nattr + 1, 255, 256, 300, 99999, -1, -99999]
+    out = []
+    g = Gen(rng, mode)
+    groups = []
+    for i, c in enumerate(values):
+        x, y = 4 + (i % 8) * 18, 4 + (i // 8) * 10
+        k = rng.random()
+        if c < 0:
+            ctok = ['C', c, 'minus']
+        elif k < 0.6:
+            ctok = ['C', c, 'lit']
+        elif k < 0.75:
+            ctok = ['C', c, 'plus']
+        else:
+            name = 'Q#' if c > 32767 else rng.choice(['I%', 'K!', 'V', 'N.1%'])
+            if name in g.nums and g.nums[name] != c:
+                ctok = ['C', c, 'lit']
+            else:
+                g.nums[name] = c
+                ctok = ['C', c, 'var:' + name]
+        groups.append([['B'], ['M', False, x, y, 'lit', 'lit'], ctok, ['mv', 'R', 12, 'lit'], ['mv', 'F', 4, 'lit']])
+    toklists = [sum(groups[i:i + 6], []) for i in range(0, len(groups), 6)]
+    out.append({'nums': sorted(g.nums.items()), 'arr': [0] * ARRLEN, 'strs': [],
+                'stmts': [['d', render(rng, t)] for t in toklists], 'tokens': toklists, 'subs': {}, 'quirk': False,
+                'paint': False, 'selfref': None})
+    # no C at all: the mode's own attribute, then whatever PSET and LINE leave
+    c1, c2 = rng.randint(0, nattr), rng.choice([0, 1, nattr - 1, nattr, 200])
+    toklists = [[['mv', 'R', 10, 'lit'], ['mv', 'G', 5, 'lit']], None, [['mv', 'U', 7, 'lit'], ['mv', 'E', 3, 'lit']], None,
+                [['N'], ['mv', 'D', 9, 'lit'], ['B'], ['M', True, 5, 5, 'plus', 'lit'], ['mv', 'H', 6, 'lit']]]
+    stmts = [['d', render(rng, toklists[0])], ['p', rng.randint(5, w - 6), rng.randint(5, h - 6), c1],
+             ['d', render(rng, toklists[2])], ['l', rng.randint(5, w - 6), rng.randint(5, h - 6), c2],
+             ['d', render(rng, toklists[4])]]
+    out.append({'nums': [], 'arr': [0] * ARRLEN, 'strs': [], 'stmts': stmts, 'tokens': toklists, 'subs': {},
+                'quirk': False, 'paint': False, 'selfref': None})
+    return out
+
+
+def known_modes():
+    """(adapter key, SCREEN) of every graphics mode the implementation defines (the list gen/tables_c34.py walks)"""
+    import os
+    import sys
+    gen = os.path.join(os.path.dirname(os.path.dirname(os.path.abspath(__file__))), 'gen')
+    if gen not in sys.path:
+        sys.path.insert(0, gen)
+    import tables_c34
+    return sorted(set((a[0], a[4]) for a in tables_c34.collect()[1] if a[4] != 0))
+
+
+def sweep_modes(ctx, batch):
+    """the colour part (and, thorough tier, random histories) in every adapter x graphics mode"""
+    rng = ctx.rng
+    try:
+        missing = [m for m in known_modes() if m not in SIZES]
+    except Exception as e:   # noqa
+        missing = []
+        ctx.notes['mode list of the implementation not readable'] = repr(e)
+    if missing:
+        # a mode the harness has no documentation entry for: the class is not covered there
+        ctx.notes['graphics modes without an entry in SIZES (not driven)'] = repr(missing)
+        ctx.count('modes not driven', len(missing))
+    for mi, mode in enumerate(ALL_MODES):
+        impl = Impl(mode)
+        ref = Impl(mode)
+        try:
+            out, exc = impl.ex(b'SCREEN %d' % mode[2])
+            if exc or out.strip():
+                ctx.fail('mode-unavailable:%s:%d' % (mode[0], mode[2]), {'kind': 'mode', 'mode': mi},
+                         'SCREEN %d with %r: %r' % (mode[2], mode[1], exc or out))
+                continue
+            work = [('colour', h) for h in colour_histories(rng, mode)]
+            if not ctx.quick and mi not in MAIN:
+                work += [('structured', None)] * 120
+            for kind, hist in work:
+                if kind == 'structured':
+                    hist = make_history(rng, mode)
+                impl_str, fails = run_history(ctx, mi, impl, ref, hist)
+                report(ctx, mi, hist, fails, kind)
+                for i, st in enumerate(hist['stmts']):
+                    ctx.case((mi, kind, st[0], str(st[1:]), str(hist['strs']), str(hist['nums'])))
+                    ctx.count('stmt:%s:%s' % (kind, st[0]))
+                if impl_str is not None:
+                    batch.append((mi, hist, impl_str, model_line(mode, hist)))
+            ctx.count('colour sweep: adapter/mode combinations')
+        finally:
+            impl.close()
+            ref.close()
+    ctx.log('colour sweep over %d adapter/mode combinations done' % len(ALL_MODES))
+
+
 def run(ctx):
     rng = ctx.rng
-    n_struct = 180 if ctx.quick else 2000
+    n_struct = 165 if ctx.quick else 2000
     n_fuzz = 50 if ctx.quick else 600
     batch = []
-    for mi, mode in enumerate(MODES):
+    for mi in MAIN:
+        mode = ALL_MODES[mi]
         impl = Impl(mode)
         ref = Impl(mode)
         try:
@@ -818,6 +945,7 @@ def run(ctx):
             impl.close()
             ref.close()
         ctx.log('SCREEN %d done' % mode[2])
+    sweep_modes(ctx, batch)
     compare_batch(ctx, batch)
     # DRAW in text mode
     s = basic.new_session()
@@ -843,9 +971,16 @@ def replay(ctx, payload):
             s.close()
         return None if b'Illegal function call' in out else 'DRAW in text mode: %r' % out
     mi = case['mode']
+    if case.get('kind') == 'mode':
+        impl = Impl(ALL_MODES[mi])
+        try:
+            out, exc = impl.ex(b'SCREEN %d' % ALL_MODES[mi][2])
+        finally:
+            impl.close()
+        return ('SCREEN %d: %r' % (ALL_MODES[mi][2], exc or out)) if (exc or out.strip()) else None
     hist = unjson(case['hist'])
-    impl = Impl(MODES[mi])
-    ref = Impl(MODES[mi])
+    impl = Impl(ALL_MODES[mi])
+    ref = Impl(ALL_MODES[mi])
     try:
         _, fails = run_history(ctx, mi, impl, ref, hist, judge=(case.get('kind') != 'fuzz'))
     finally:
